@@ -179,6 +179,7 @@ main(int argc, char** argv)
   v_alloc_init(&va);
   va.compact = true;
   v_setup_io();
+  v_watchdog(20);
   while ((n = v_next(in, tok)) >= 0) {
     if (v_marker(n, tok)) {
       continue;
